@@ -1,5 +1,10 @@
 //! Glue between the model (`vmodel`) and the real crates in /repo.
 pub use arrayvec;
+pub use bit_set;
+pub use bit_set08;
+pub use bit_vec;
+pub use bit_vec08;
+pub use nalgebra;
 pub use chrono;
 pub use indexmap;
 pub use parking_lot;
